@@ -191,3 +191,7 @@ def expected(m):
     if "two" in sec:
         exp[("two_ints", "er_ao")] = Approx(_er_phys(m), atol=0.0, rtol=0.5e-11)
     return exp
+
+
+# Classes that are generated but NOT asserted by C03 (triage decisions, see DESIGN.md section 7): class -> reason
+NOT_ASSERTED = {'potential_sign_core': 'sign convention of na_ao is pinned by the repository tests; core Hamiltonian is an omission'}
